@@ -48,6 +48,25 @@ fn read_all(wire: Vec<u8>, size: usize) -> (Vec<u8>, bool) {
     }
 }
 
+/// C05: reading a coded body that was cut short always comes to an end (an error or an end of body, never a loop): gzip and
+/// deflate streams cut at every 5th offset and around their ends, under length / chunked / close-delimited framing, read in
+/// every way there is; the watchdog turns a read that never returns into a failure
+#[test]
+fn vp_native_coded_truncations_terminate() { crate::verif_native_watchdog::watched(vp_native_coded_truncations_terminate_body); }
+fn vp_native_coded_truncations_terminate_body() {
+    let payload: Vec<u8> = (0..5000u32).map(|i| (i * 7 % 253) as u8).collect();
+    let mut cases = 0u64;
+    for (hdr, enc) in [("Content-Encoding: gzip\r\n", gz(&payload, 6)), ("Content-Encoding: deflate\r\n", deflate(&payload, 6)), ("Transfer-Encoding: gzip\r\n", gz(&payload, 1))] {
+        for cut in (0..=enc.len()).filter(|c| c % 5 == 0 || *c < 24 || c + 12 >= enc.len()) {
+            for wire in [respond_close(hdr, &enc[..cut]), respond(hdr, &enc[..cut], true), respond(hdr, &enc[..cut], false),
+                         { let mut w = format!("HTTP/1.1 200 OK\r\n{}Content-Length: {}\r\n\r\n", hdr, enc.len()).into_bytes(); w.extend_from_slice(&enc[..cut]); w }] {
+                cases += read_every_way(&wire).len() as u64; crate::verif_native_watchdog::progress();
+            }
+        }
+    }
+    println!("VP-NATIVE coded_truncations_terminate cases={}", cases);
+}
+
 /// C06: payloads x codings x header spellings x framings x read sizes decode exactly; every truncation and every trailer bit
 /// flip is an error and what was delivered before is a prefix of the payload
 #[test]
@@ -62,7 +81,7 @@ fn vp_native_decoding_and_damage_body() {
                 for chunked in [false, true] {
                     for size in [1usize, 7, 4096, 100000] {
                         let (got, clean) = read_all(respond(hdr, &enc, chunked), size);
-                        cases += 1;
+                        cases += 1; crate::verif_native_watchdog::progress();
                         assert!(clean && got == *p, "intact {:?} body of {} bytes, chunked {}, read size {}: clean {} got {} bytes", hdr, p.len(), chunked, size, clean, got.len());
                     }
                 }
@@ -71,7 +90,7 @@ fn vp_native_decoding_and_damage_body() {
                 for cut in 0..enc.len() {
                     for size in [1usize, 4096] {
                         let (got, clean) = read_all(respond(hdr, &enc[..cut], false), size);
-                        cases += 1;
+                        cases += 1; crate::verif_native_watchdog::progress();
                         assert!(got.len() <= p.len() && got[..] == p[..got.len()], "truncated at {}: delivered bytes are not a prefix", cut);
                         assert!(!clean, "compressed stream cut at {} of {} read as a complete body ({:?}, read size {})", cut, enc.len(), hdr, size);
                     }
@@ -80,7 +99,7 @@ fn vp_native_decoding_and_damage_body() {
                 for cut in (0..enc.len()).filter(|c| c % 7 == 0 || c + 12 >= enc.len()) {
                     for (framing, wire) in [("close-delimited", respond_close(hdr, &enc[..cut])), ("chunked", respond(hdr, &enc[..cut], true)), ("length", respond(hdr, &enc[..cut], false))] {
                         for (how, got, clean) in read_every_way(&wire) {
-                            cases += 1;
+                            cases += 1; crate::verif_native_watchdog::progress();
                             assert!(got.len() <= p.len() && got[..] == p[..got.len()], "{} body truncated at {} read through {}: delivered bytes are not a prefix", framing, cut, how);
                             assert!(!clean, "compressed stream cut at {} of {} in a {} body read as a complete body of {} bytes through {} ({:?})", cut, enc.len(), framing, got.len(), how, hdr);
                         }
@@ -92,7 +111,7 @@ fn vp_native_decoding_and_damage_body() {
                         let mut bad = enc.clone(); let n = bad.len(); bad[n - 8 + bit / 8] ^= 1 << (bit % 8);
                         for size in [1usize, 7, 4096, 100000] {
                             let (got, clean) = read_all(respond(hdr, &bad, false), size);
-                            cases += 1;
+                            cases += 1; crate::verif_native_watchdog::progress();
                             assert!(got.len() <= p.len() && got[..] == p[..got.len()]);
                             assert!(!clean, "gzip trailer bit {} flipped but the body read as complete (read size {})", bit, size);
                         }
@@ -121,11 +140,11 @@ fn vp_native_decoding_and_damage_body() {
                     }
                 }
                 for size in [3usize, 100000] {
-                    let (got, clean) = read_all(w.clone(), size); cases += 1;
+                    let (got, clean) = read_all(w.clone(), size); cases += 1; crate::verif_native_watchdog::progress();
                     assert!(clean && got == p, "level {} {} {} framing read size {}: clean {} got {} of {} bytes", level, what, framing, size, clean, got.len(), p.len());
                 }
                 let req = PreparedRequest::new(Method::GET, "http://a.test/");
-                let b = parse_response(BaseStream::mock(w.clone()), &req, req.url()).unwrap().bytes().unwrap(); cases += 1;
+                let b = parse_response(BaseStream::mock(w.clone()), &req, req.url()).unwrap().bytes().unwrap(); cases += 1; crate::verif_native_watchdog::progress();
                 assert!(b == p, "bytes(): level {} {} {} framing", level, what, framing);
             }
         }
@@ -138,7 +157,7 @@ fn vp_native_decoding_and_damage_body() {
                        ("Content-Encoding: identity\r\nContent-Encoding: DeFlate\r\n", deflate(&p2, 6)), ("Content-Encoding: a\r\nContent-Encoding: b\r\nContent-Encoding: deflate\r\n", deflate(&p2, 6)),
                        ("Content-Encoding: identity\r\nContent-Encoding: x-other\r\n", p2.clone())] {
         for chunked in [false, true] { for size in [7usize, 100000] {
-            let (got, clean) = read_all(respond(hdr, &enc, chunked), size); cases += 1;
+            let (got, clean) = read_all(respond(hdr, &enc, chunked), size); cases += 1; crate::verif_native_watchdog::progress();
             assert!(clean && got == p2, "coding declared over several field lines {:?}, chunked {}: clean {} got {} of {} bytes", hdr, chunked, clean, got.len(), p2.len());
         } }
     }
@@ -146,7 +165,7 @@ fn vp_native_decoding_and_damage_body() {
         let mut w = b"HTTP/1.1 200 OK\r\n".to_vec(); w.extend_from_slice(te.as_bytes());
         for c in enc.chunks(777) { w.extend_from_slice(format!("{:x}\r\n", c.len()).as_bytes()); w.extend_from_slice(c); w.extend_from_slice(b"\r\n"); }
         w.extend_from_slice(b"0\r\n\r\n");
-        let (got, clean) = read_all(w, 4096); cases += 1;
+        let (got, clean) = read_all(w, 4096); cases += 1; crate::verif_native_watchdog::progress();
         assert!(clean && got == p2, "transfer coding declared over two field lines {:?}: clean {} got {} bytes", te, clean, got.len());
     }
     println!("VP-NATIVE decoding_and_damage cases={}", cases);
